@@ -215,6 +215,11 @@ func (r *walkerResolver) structType(i int) reflect.Type {
 			fs[j].Tag = reflect.StructTag("valid:" + strconv.Quote(walkerRulesText(f.Rules)))
 		}
 	}
+	if r.mode == "tag" {
+		// a rule-less time.Time field in front of the declared fields: it is never validated and must not shift
+		// anything (values are set by field name in this mode)
+		fs = append([]reflect.StructField{{Name: "Wdecoy", Type: walkerTimeType}}, fs...)
+	}
 	t := reflect.StructOf(fs)
 	r.memo[i] = t
 	return t
@@ -279,7 +284,11 @@ func (r *walkerResolver) build(t walkerTy, v walkerVal) reflect.Value {
 	case "struct":
 		td := r.scn.Types[t.N-1]
 		for i := range td.Fields {
-			walkerSet(out.Field(i), r.build(td.Fields[i].Ty, v.Kids[i]))
+			dst := out.Field(i)
+			if r.named == nil {
+				dst = out.FieldByName(td.Fields[i].Name)
+			}
+			walkerSet(dst, r.build(td.Fields[i].Ty, v.Kids[i]))
 		}
 	case "ptr":
 		if !v.Nil {
